@@ -48,8 +48,9 @@ pub fn run(args: &[String]) {
     let mut j = Joypad::new();
     let ok = reach(&mut j, pressed, sel, pend);
     let p1pre = j.get_value() & 0x3f;
-    match act { "press" => j.press_button(button(arg)), "release" => j.release_button(button(arg)),
-                _ => j.set_value(arg as u8) }
+    // (statement position throughout: the harness must keep compiling if one of these starts to return something)
+    match act { "press" => { let _ = j.press_button(button(arg)); }, "release" => { let _ = j.release_button(button(arg)); },
+                _ => { let _ = j.set_value(arg as u8); } }
     let p1 = j.get_value() & 0x3f;
     let irq = (j.get_interrupt().as_u8() != 0) as u64;
     let irq2 = (j.get_interrupt().as_u8() != 0) as u64;
@@ -58,9 +59,9 @@ pub fn run(args: &[String]) {
     let p = mem_ptr(&mut core);
     let okb = reach(&mut core.memory.io.joypad, pressed, sel, pend);
     core.memory.io.interrupt_flag = crate::devices::interrupts::InterruptFlag::new(0);
-    match act { "press" => core.memory.io.joypad.press_button(button(arg)),
-                "release" => core.memory.io.joypad.release_button(button(arg)),
-                _ => crate::mem::memory_write_byte(p, 0xff00, arg as u8) }
+    match act { "press" => { let _ = core.memory.io.joypad.press_button(button(arg)); },
+                "release" => { let _ = core.memory.io.joypad.release_button(button(arg)); },
+                _ => { crate::mem::memory_write_byte(p, 0xff00, arg as u8); } }
     let bus_p1 = crate::mem::memory_read_byte(p, 0xff00) & 0x3f;
     core.memory.run_clock_cycles(crate::timing::ClockCycles(4));
     let if1 = (crate::mem::memory_read_byte(p, 0xff0f) >> 4 & 1) as u64;
@@ -98,24 +99,40 @@ pub fn trace(args: &[String]) {
       core = plain_core();
       left = 20 + rng.below(200) as usize;
       let p = mem_ptr(&mut core);
-      println!("{}", json!({"ev": "reset", "arg": 0, "p1": crate::mem::memory_read_byte(p, 0xff00) & 0x3f, "out": 0}));
+      println!("{}", json!({"ev": "reset", "arg": 0, "p1": crate::mem::memory_read_byte(p, 0xff00) & 0x3f, "out": 0, "if4": 0}));
       continue;
     }
     left -= 1;
     let p = mem_ptr(&mut core);
-    let k = rng.below(10);
+    let k = rng.below(14);
     let (ev, arg, out) = if k < 4 {
-      let b = rng.below(8); core.memory.io.joypad.press_button(button(b)); ("press", b, 0)
+      let b = rng.below(8); let _ = core.memory.io.joypad.press_button(button(b)); ("press", b, 0)
     } else if k < 6 {
-      let b = rng.below(8); core.memory.io.joypad.release_button(button(b)); ("release", b, 0)
+      let b = rng.below(8); let _ = core.memory.io.joypad.release_button(button(b)); ("release", b, 0)
     } else if k < 8 {
       let v = rng.byte(); crate::mem::memory_write_byte(p, 0xff00, v); ("select", v as u64, 0)
-    } else {
+    } else if k < 10 {
       crate::mem::memory_write_byte(p, 0xff0f, 0);
       core.memory.run_clock_cycles(crate::timing::ClockCycles(4));
       let o = (crate::mem::memory_read_byte(p, 0xff0f) >> 4 & 1) as u64;
       ("collect", 0, o)
+    } else if k < 11 {
+      crate::mem::memory_write_byte(p, 0xff0f, 0);
+      ("ack", 0, 0)
+    } else {
+      // one machine cycle of device time without acknowledging first: directly, or as the emulator lets it pass while
+      // the CPU is halted (1) or stopped (2); IE is 0, so nothing wakes or dispatches
+      let how = rng.below(3);
+      match how {
+        0 => { core.memory.run_clock_cycles(crate::timing::ClockCycles(4)); },
+        1 => { core.run_state = crate::emulator::RunState::Halt; core.update(); },
+        _ => { core.run_state = crate::emulator::RunState::Stop; core.update(); },
+      }
+      ("tick", how, 0)
     };
-    println!("{}", json!({"ev": ev, "arg": arg, "p1": crate::mem::memory_read_byte(p, 0xff00) & 0x3f, "out": out}));
+    let p = mem_ptr(&mut core);
+    // IF bit 4 as the bus shows it after the event (no device time passes for this read)
+    let if4 = (crate::mem::memory_read_byte(p, 0xff0f) >> 4 & 1) as u64;
+    println!("{}", json!({"ev": ev, "arg": arg, "p1": crate::mem::memory_read_byte(p, 0xff00) & 0x3f, "out": out, "if4": if4}));
   }
 }
